@@ -40,6 +40,10 @@ class CompositedCacheMixin:
         super().downsize()
         self._merged_solvers = {}
 
+    def _remove_child(self, s):
+        self._remove_cached(s.variables)
+        return super()._remove_child(s)
+
     def _store_child(self, ns, extra_names=frozenset(), invalidate_cache=True):
         self._remove_cached(ns.variables)
         return super()._store_child(ns, extra_names=extra_names, invalidate_cache=invalidate_cache)
